@@ -29,6 +29,57 @@ type FlowGraph struct {
 	atom func(e ast.Expr) byte
 	// the facts the running search carries at the point where atom is being asked
 	curFacts map[identFact]bool
+	// pseudo-variables for the fields of local struct values (d.updated): see factObj
+	fieldVars map[string]*types.Var
+}
+
+// factObj: the variable a fact can be about: an identifier, or a field of a local struct value (d.updated
+// where d is a local variable of struct type, not a pointer): the field of that one value is a variable of
+// its own, written only by assignments to d.f or to d as a whole.
+func (fg *FlowGraph) factObj(e ast.Expr) types.Object {
+	switch x := ast.Unparen(e).(type) {
+	case *ast.Ident:
+		return fg.Info.ObjectOf(x)
+	case *ast.SelectorExpr:
+		id, ok := ast.Unparen(x.X).(*ast.Ident)
+		if !ok {
+			return nil
+		}
+		v, ok := fg.Info.ObjectOf(id).(*types.Var)
+		if !ok || v.IsField() || v.Pkg() == nil || v.Parent() == v.Pkg().Scope() {
+			return nil
+		}
+		if _, isStruct := v.Type().Underlying().(*types.Struct); !isStruct {
+			return nil
+		}
+		sel := fg.Info.Selections[x]
+		if sel == nil || sel.Kind() != types.FieldVal || len(sel.Index()) != 1 {
+			return nil
+		}
+		key := fmt.Sprintf("%p.%s", v, x.Sel.Name)
+		if fg.fieldVars == nil {
+			fg.fieldVars = map[string]*types.Var{}
+		}
+		pv := fg.fieldVars[key]
+		if pv == nil {
+			pv = types.NewVar(x.Pos(), v.Pkg(), v.Name()+"."+x.Sel.Name, sel.Obj().Type())
+			fg.fieldVars[key] = pv
+		}
+		return pv
+	}
+	return nil
+}
+
+// fieldVarsOf: the pseudo-variables of the fields of local struct value v that facts may mention.
+func (fg *FlowGraph) fieldVarsOf(v types.Object) []types.Object {
+	var out []types.Object
+	prefix := fmt.Sprintf("%p.", v)
+	for k, pv := range fg.fieldVars {
+		if strings.HasPrefix(k, prefix) {
+			out = append(out, pv)
+		}
+	}
+	return out
 }
 
 type boolLink struct {
@@ -397,8 +448,8 @@ func (fg *FlowGraph) identFacts(fs []Fact) map[identFact]bool {
 		}
 		e := ast.Unparen(f.E)
 		switch x := e.(type) {
-		case *ast.Ident:
-			if o := fg.Info.ObjectOf(x); o != nil {
+		case *ast.Ident, *ast.SelectorExpr:
+			if o := fg.factObj(x.(ast.Expr)); o != nil {
 				if _, seen := out[identFact{o, false}]; !seen { // facts come nearest-first: the nearest test wins
 					out[identFact{o, false}] = !f.Neg
 				}
@@ -408,12 +459,8 @@ func (fg *FlowGraph) identFacts(fs []Fact) map[identFact]bool {
 				continue
 			}
 			for _, side := range [][2]ast.Expr{{x.X, x.Y}, {x.Y, x.X}} {
-				id, ok := ast.Unparen(side[0]).(*ast.Ident)
-				if !ok {
-					continue
-				}
 				if tv, ok := fg.Info.Types[side[1]]; ok && tv.IsNil() {
-					if o := fg.Info.ObjectOf(id); o != nil {
+					if o := fg.factObj(side[0]); o != nil {
 						isNil := (x.Op == token.EQL) != f.Neg
 						if _, seen := out[identFact{o, true}]; !seen {
 							out[identFact{o, true}] = isNil
@@ -451,8 +498,8 @@ func (fg *FlowGraph) eval3(e ast.Expr, facts map[identFact]bool) byte {
 		}
 	}
 	switch x := e.(type) {
-	case *ast.Ident:
-		if o := fg.Info.ObjectOf(x); o != nil {
+	case *ast.Ident, *ast.SelectorExpr:
+		if o := fg.factObj(x.(ast.Expr)); o != nil {
 			if v, ok := facts[identFact{o, false}]; ok {
 				if v {
 					return '1'
@@ -489,12 +536,8 @@ func (fg *FlowGraph) eval3(e ast.Expr, facts map[identFact]bool) byte {
 			}
 		case token.EQL, token.NEQ:
 			for _, side := range [][2]ast.Expr{{x.X, x.Y}, {x.Y, x.X}} {
-				id, ok := ast.Unparen(side[0]).(*ast.Ident)
-				if !ok {
-					continue
-				}
 				if isZeroLit(fg.Info, side[1]) {
-					if o := fg.Info.ObjectOf(id); o != nil {
+					if o := fg.factObj(side[0]); o != nil {
 						if isNil, ok := facts[identFact{o, true}]; ok {
 							if isNil == (x.Op == token.EQL) {
 								return '1'
@@ -512,10 +555,6 @@ func (fg *FlowGraph) eval3(e ast.Expr, facts map[identFact]bool) byte {
 // generated adds the facts established by assignments of boolean constants or nil to identifiers
 // (flag = true; p = nil) in block node n.
 func (fg *FlowGraph) generated(n ast.Node, facts map[identFact]bool) map[identFact]bool {
-	as, ok := n.(*ast.AssignStmt)
-	if !ok || len(as.Lhs) != len(as.Rhs) || (as.Tok != token.ASSIGN && as.Tok != token.DEFINE) {
-		return facts
-	}
 	var out map[identFact]bool
 	set := func(k identFact, v bool) {
 		if out == nil {
@@ -526,12 +565,72 @@ func (fg *FlowGraph) generated(n ast.Node, facts map[identFact]bool) map[identFa
 		}
 		out[k] = v
 	}
-	for i, l := range as.Lhs {
-		id, ok := ast.Unparen(l).(*ast.Ident)
-		if !ok {
-			continue
+	// var ok bool / var p *T / var d commandDetails: the zero value is known
+	var specs []ast.Spec
+	switch d := n.(type) {
+	case *ast.DeclStmt: // go/cfg records the specs; kept for callers that pass statements
+		if gd, ok := d.Decl.(*ast.GenDecl); ok && gd.Tok == token.VAR {
+			specs = gd.Specs
 		}
-		o := fg.Info.ObjectOf(id)
+	case *ast.ValueSpec:
+		specs = []ast.Spec{d}
+	}
+	if specs != nil {
+		for _, sp := range specs {
+			vs, ok := sp.(*ast.ValueSpec)
+			if !ok || len(vs.Values) != 0 {
+				continue
+			}
+			for _, nm := range vs.Names {
+				o := fg.Info.ObjectOf(nm)
+				if o == nil || nm.Name == "_" {
+					continue
+				}
+				switch t := o.Type().Underlying().(type) {
+				case *types.Basic:
+					if t.Kind() == types.Bool {
+						set(identFact{o, false}, false)
+					}
+				case *types.Pointer, *types.Interface, *types.Slice, *types.Map, *types.Chan, *types.Signature:
+					set(identFact{o, true}, true)
+				case *types.Struct:
+					for i := 0; i < t.NumFields(); i++ {
+						f := t.Field(i)
+						sel := &ast.SelectorExpr{X: nm, Sel: &ast.Ident{Name: f.Name(), NamePos: nm.Pos()}}
+						_ = sel
+						// the pseudo-variable of d.f: zero like any other variable
+						key := fmt.Sprintf("%p.%s", o, f.Name())
+						if fg.fieldVars == nil {
+							fg.fieldVars = map[string]*types.Var{}
+						}
+						pv := fg.fieldVars[key]
+						if pv == nil {
+							pv = types.NewVar(nm.Pos(), o.Pkg(), o.Name()+"."+f.Name(), f.Type())
+							fg.fieldVars[key] = pv
+						}
+						switch ft := f.Type().Underlying().(type) {
+						case *types.Basic:
+							if ft.Kind() == types.Bool {
+								set(identFact{pv, false}, false)
+							}
+						case *types.Pointer, *types.Interface, *types.Slice, *types.Map:
+							set(identFact{pv, true}, true)
+						}
+					}
+				}
+			}
+		}
+		if out == nil {
+			return facts
+		}
+		return out
+	}
+	as, ok := n.(*ast.AssignStmt)
+	if !ok || len(as.Lhs) != len(as.Rhs) || (as.Tok != token.ASSIGN && as.Tok != token.DEFINE) {
+		return facts
+	}
+	for i, l := range as.Lhs {
+		o := fg.factObj(l)
 		if o == nil {
 			continue
 		}
@@ -574,7 +673,11 @@ func (fg *FlowGraph) killed(n ast.Node, facts map[identFact]bool) map[identFact]
 		case *ast.AssignStmt:
 			for _, l := range s.Lhs {
 				if id, ok := ast.Unparen(l).(*ast.Ident); ok {
-					dead = append(dead, fg.Info.ObjectOf(id))
+					o := fg.Info.ObjectOf(id)
+					dead = append(dead, o)
+					dead = append(dead, fg.fieldVarsOf(o)...)
+				} else if o := fg.factObj(l); o != nil {
+					dead = append(dead, o)
 				}
 			}
 		case *ast.IncDecStmt:
@@ -584,7 +687,11 @@ func (fg *FlowGraph) killed(n ast.Node, facts map[identFact]bool) map[identFact]
 		case *ast.UnaryExpr:
 			if s.Op == token.AND {
 				if id, ok := ast.Unparen(s.X).(*ast.Ident); ok {
-					dead = append(dead, fg.Info.ObjectOf(id))
+					o := fg.Info.ObjectOf(id)
+					dead = append(dead, o)
+					dead = append(dead, fg.fieldVarsOf(o)...)
+				} else if o := fg.factObj(s.X); o != nil {
+					dead = append(dead, o)
 				}
 			}
 		case *ast.RangeStmt:
@@ -951,6 +1058,38 @@ func sameExpr(info *types.Info, a, b ast.Expr) bool {
 // to the object anywhere in the body, literals included.
 func (fg *FlowGraph) assignCount(o types.Object) int {
 	n := 0
+	// the pseudo-variable of a struct field: assignments to d.f, to d as a whole, &d, &d.f
+	for key, pv := range fg.fieldVars {
+		if pv != o {
+			continue
+		}
+		ast.Inspect(fg.Body, func(x ast.Node) bool {
+			switch s := x.(type) {
+			case *ast.AssignStmt:
+				for _, l := range s.Lhs {
+					if fg.factObj(l) == o {
+						n++
+					} else if id, ok := ast.Unparen(l).(*ast.Ident); ok && strings.HasPrefix(key, fmt.Sprintf("%p.", fg.Info.ObjectOf(id))) {
+						n++
+					}
+				}
+			case *ast.IncDecStmt:
+				if fg.factObj(s.X) == o {
+					n++
+				}
+			case *ast.UnaryExpr:
+				if s.Op == token.AND {
+					if fg.factObj(s.X) == o {
+						n += 2
+					} else if id, ok := ast.Unparen(s.X).(*ast.Ident); ok && strings.HasPrefix(key, fmt.Sprintf("%p.", fg.Info.ObjectOf(id))) {
+						n += 2
+					}
+				}
+			}
+			return true
+		})
+		return n
+	}
 	ast.Inspect(fg.Body, func(x ast.Node) bool {
 		switch s := x.(type) {
 		case *ast.AssignStmt:
